@@ -328,4 +328,7 @@ func (x *Exec) checkFrame(st *State, fr *Frame, ct *Contract, env map[string]Val
 	}
 }
 
-func (x *Exec) cellFrameStrict(name string) bool { return false }
+// Go maps that existed at entry are part of the frame (writing into a map the caller handed over - e.g. the
+// fields of an application's structpb.Struct - is an effect); cells of locals are not (they are reached only
+// through fresh references or captured variables listed in modifies clauses).
+func (x *Exec) cellFrameStrict(name string) bool { return strings.HasPrefix(name, "M!") }
